@@ -84,7 +84,9 @@ class C11(spec.Spec):
     def __init__(self, tier, params=None):
         super().__init__(tier, params)
         import logging
+        import warnings
         logging.disable(logging.CRITICAL)
+        warnings.simplefilter("ignore")
         self.alphabet = []
         self.two = tier == "thorough"
 
